@@ -11,9 +11,25 @@ import (
 	"time"
 
 	"github.com/openbao/openbao/v2/internal/helper/namespace"
+	"github.com/openbao/openbao/v2/internal/vault/barrier"
 )
 
 func (c *Core) VerifExpiration() *ExpirationManager { return c.expiration }
+
+// VerifBarriers returns the root barrier and every namespace barrier known to
+// the seal manager, keyed by namespace path ("" = root).
+func (c *Core) VerifBarriers() map[string]barrier.SecurityBarrier {
+	out := map[string]barrier.SecurityBarrier{"": c.barrier}
+	if c.sealManager != nil {
+		c.sealManager.barrierByNamespacePath.Walk(func(p string, v any) bool {
+			if b, ok := v.(barrier.SecurityBarrier); ok && p != "" {
+				out[p] = b
+			}
+			return false
+		})
+	}
+	return out
+}
 func (c *Core) VerifTokenStore() *TokenStore        { return c.tokenStore }
 
 // VerifSetExpireRecorder replaces the lease-expiry strategy: a lease whose
